@@ -1,4 +1,5 @@
 SPECIFICATION Spec
 INVARIANT NeverAltered
 INVARIANT FaultNeverSucceeds
+INVARIANT NeverClear
 CHECK_DEADLOCK FALSE
